@@ -67,6 +67,9 @@ def apply_dups(spec, dups):
     return out
 
 
+add_migrations = U.add_migrations
+
+
 def strip_edge_md(spec):
     spec["edges"] = [e[:4] + [""] for e in spec["edges"]]
 
@@ -97,7 +100,9 @@ def common_labels(ctx, spec, P, dups):
 # ================================================================== C07.sort_order
 @st.composite
 def sort_case(draw):
-    spec = draw(gen.ts_spec(max_nodes=8, max_intervals=4, max_sites=4, max_muts_per_site=4))
+    spec = draw(gen.ts_spec(min_nodes=2, max_nodes=8, max_intervals=4, max_sites=4, max_muts_per_site=4,
+                            mut_times=draw(st.sampled_from([None, "known"]))))
+    add_migrations(draw, spec)
     U.uniq_migrations(spec)
     if draw(st.integers(0, 5)) == 0:
         strip_edge_md(spec)
@@ -119,21 +124,14 @@ def sort_case(draw):
     else:
         starts = [draw(st.integers(0, ns + 1)), draw(st.integers(0, nm + 1))]
     return dict(spec=spec, dups=dups, unknown_sites=unk, perms=P, edge_start=edge_start, starts=starts,
-                prov=draw(st.booleans()), index=draw(st.booleans()))
+                prov=draw(st.booleans()))
 
 
 def prepare_sort(case):
-    spec = apply_dups(case["spec"], case["dups"])
+    spec = dict(case["spec"])
     unk = set(case["unknown_sites"])
-    for s, *_ in case["dups"]:
-        if s in unk:
-            unk.add(len(case["spec"]["sites"]) + [d[0] for d in case["dups"]].index(s))
-    for m in spec["mutations"]:
-        if m[0] in unk:
-            m[4] = None
-    # a parent must not be younger than its child: erase parents where times were removed on one
-    # side only (cannot happen: a site and its duplicate are erased together)
-    spec = U.permuted(spec, case["perms"])
+    spec["mutations"] = [m[:4] + [None if m[0] in unk else m[4]] + m[5:] for m in spec["mutations"]]
+    spec = U.permuted(apply_dups(spec, case["dups"]), case["perms"])
     if case["prov"]:
         spec["provenances"] = PROV
     return spec
@@ -196,7 +194,9 @@ def run_sort(case, ctx):
 # ================================================================== C07.repair_pipeline
 @st.composite
 def pipeline_case(draw):
-    spec = draw(gen.ts_spec(max_nodes=8, max_intervals=4, max_sites=4, max_muts_per_site=5))
+    spec = draw(gen.ts_spec(min_nodes=2, max_nodes=8, max_intervals=4, max_sites=4, max_muts_per_site=5,
+                            mut_times=draw(st.sampled_from([None, "known"]))))
+    add_migrations(draw, spec)
     U.uniq_migrations(spec)
     if draw(st.integers(0, 7)) == 0:
         strip_edge_md(spec)
@@ -426,9 +426,12 @@ def run_mutpar(case, ctx):
     ctx.label("permuted_within_site", pm != U.ident(len(pm)))
     ctx.label("parent_after_child", not sorted_ok)
     ctx.nt(any(p >= 0 for p in mp))
-    for j, m in enumerate(spec["mutations"]):
-        m[3] = case["garbage"][j]
+    import numpy as np
+
+    for m in spec["mutations"]:
+        m[3] = -1
     t = gen.build_tables(spec, tskit)
+    t.mutations.parent = np.array(case["garbage"], dtype=np.int32)
     s0 = U.snap(t)
     if not sorted_ok:
         try:
@@ -439,8 +442,6 @@ def run_mutpar(case, ctx):
                  f"node) was accepted; parents {list(t.mutations.parent)} model {mp}")
     t.compute_mutation_parents()
     ctx.eq(list(map(int, t.mutations.parent)), mp, "compute_mutation_parents")
-    for m in spec["mutations"]:
-        m[3] = -1
     t2 = gen.build_tables(spec, tskit)
     t2.mutations.parent = t.mutations.parent
     U.same(ctx, U.snap(t2), U.snap(t), U.TABLES + ("top",), "compute_mutation_parents.other_columns")
@@ -630,8 +631,7 @@ def run_canon(case, ctx):
 @st.composite
 def sortind_case(draw):
     spec = draw(gen.ts_spec(max_nodes=6, max_intervals=2, max_sites=2, max_muts_per_site=2))
-    extra = draw(st.integers(0, 3))
-    ni0 = len(spec["individuals"])
+    extra = draw(st.integers(0, 4))
     for j in range(extra):  # more individuals -> deeper pedigrees
         ni = len(spec["individuals"])
         par = draw(st.lists(st.integers(-1, ni - 1), max_size=3)) if ni else []
@@ -640,7 +640,7 @@ def sortind_case(draw):
                                     draw(st.sampled_from(["", "x", "\x00\xff"]))])
     tag_rows(spec)
     ni = len(spec["individuals"])
-    if draw(st.integers(0, 4)) > 0:
+    if draw(st.integers(0, 2)) > 0:
         make_acyclic(spec, list(draw(st.permutations(U.ident(ni)))))
     return dict(spec=spec, perm=U.draw_perm(draw, st, ni, 5))
 
@@ -696,8 +696,8 @@ def run_sortind(case, ctx):
 # ================================================================== C07.squash
 @st.composite
 def squash_case(draw):
-    spec = draw(gen.ts_spec(max_nodes=8, max_intervals=4, max_sites=0, migrations=False, individuals=False,
-                            populations=False))
+    spec = draw(gen.ts_spec(min_nodes=3, max_nodes=8, max_intervals=4, max_sites=0, migrations=False,
+                            individuals=False, populations=False))
     with_md = draw(st.integers(0, 7)) == 0
     if not with_md:
         strip_edge_md(spec)
@@ -712,6 +712,8 @@ def squash_case(draw):
                 pieces += [[l, mid] + q[2:], [mid, r] + q[2:]]
             else:
                 pieces.append(q)
+        if len(pieces) > 1 and draw(st.integers(0, 3)) == 0:  # a hole: the rest must not be merged over it
+            pieces.pop(draw(st.integers(0, len(pieces) - 1)))
         edges += pieces
     spec["edges"] = edges
     return dict(spec=spec, perm=U.draw_perm(draw, st, len(edges)))
@@ -747,14 +749,13 @@ def run_squash(case, ctx):
         try:
             t.edges.squash()
         except _tskit.LibraryError:
-            U.same(ctx, s0, U.snap(t), U.TABLES + ("top",), "squash.metadata_error_leaves_table")
             return
         ctx.fail("squash.metadata", "edges with non-empty metadata were squashed")
     t.edges.squash()
     out = gen.spec_from_tables(t, tskit)
     U.eq_rows(ctx, out, dict(orig, edges=exp), ["edges"], "squash.rows")
     U.same(ctx, s0, U.snap(t), [x for x in U.TABLES if x != "edges"] + ["top"], "squash.untouched")
-    U.same_trees(ctx, model, out, orig, "squash.trees")
+    U.same_trees(ctx, model, out, orig, "squash.trees", breakpoints=False)
     exp_t = gen.build_tables(dict(orig, edges=exp), tskit, index=False)
     U.same(ctx, U.snap(exp_t), U.snap(t), ["edges"], "squash.bytes")
     t.sort()
@@ -767,24 +768,25 @@ NT = ("not an error case and: rows of >=2 tables are permuted, or 0<edge_start<=
       "site position, or two parents with equal time")
 SUBCHECKS = [
     SubCheck("C07.sort_order", run_sort, strategy=sort_case, quick=2400, thorough=72000, rule=NT,
-             floors={"perm_edges": 0.3, "perm_mutations": 0.15, "perm_sites": 0.15, "perm_migrations": 0.03,
-                     "dup_site": 0.15, "edge_start>0_with_metadata": 0.1, "equal_parent_times": 0.2,
-                     "skip_sites": 0.1, "bad_start": 0.05, "known_mut_times": 0.05, "multi_mut_site": 0.15}),
+             floors={"perm_edges": 0.15, "perm_mutations": 0.15, "perm_sites": 0.1, "perm_migrations": 0.04,
+                     "dup_site": 0.2, "edge_start>0_with_metadata": 0.12, "equal_parent_times": 0.15,
+                     "skip_sites": 0.08, "bad_start": 0.1, "known_mut_times": 0.15, "multi_mut_site": 0.25,
+                     "mixed_known_unknown_sites": 0.01}),
     SubCheck("C07.repair_pipeline", run_pipeline, strategy=pipeline_case, quick=2000, thorough=60000, rule=NT,
-             floors={"perm_edges": 0.2, "perm_mutations": 0.15, "perm_sites": 0.15, "dup_site_with_mutations": 0.05,
-                     "edge_start>0_with_metadata": 0.1, "erase_parents": 0.3, "erase_times": 0.2,
-                     "known_mut_times": 0.05, "multi_mut_site": 0.15}),
+             floors={"perm_edges": 0.15, "perm_mutations": 0.1, "perm_sites": 0.1, "perm_migrations": 0.05,
+                     "dup_site_with_mutations": 0.12, "edge_start>0_with_metadata": 0.1, "erase_parents": 0.3,
+                     "erase_times": 0.15, "known_mut_times": 0.15, "multi_mut_site": 0.25}),
     SubCheck("C07.mutation_parents", run_mutpar, strategy=mutpar_case, quick=1500, thorough=45000,
              rule="at least one mutation has a mutation above it at its site",
-             floors={"parent_on_other_node": 0.1, "parent_on_same_node": 0.1, "parent_after_child": 0.03}),
+             floors={"parent_on_other_node": 0.1, "parent_on_same_node": 0.15, "parent_after_child": 0.03}),
     SubCheck("C07.canonicalise", run_canon, strategy=canon_case, quick=1500, thorough=45000,
              rule="the two row orders differ and there is no individual-parent cycle",
-             floors={"A!=B": 0.5, "perm_individuals": 0.1, "perm_populations": 0.1, "unreferenced_ind_or_pop": 0.1,
-                     "individual_parents": 0.1, "multi_mut_site": 0.15}),
+             floors={"A!=B": 0.4, "perm_individuals": 0.1, "perm_populations": 0.08,
+                     "unreferenced_ind_or_pop": 0.25, "individual_parents": 0.12, "multi_mut_site": 0.2}),
     SubCheck("C07.sort_individuals", run_sortind, strategy=sortind_case, quick=800, thorough=24000,
              rule="some individual is listed before one of its parents and the pedigree is acyclic",
-             floors={"unsorted_input": 0.1, "cycle": 0.01, "node_refs": 0.2}),
+             floors={"unsorted_input": 0.08, "cycle": 0.015, "node_refs": 0.3}),
     SubCheck("C07.squash", run_squash, strategy=squash_case, quick=800, thorough=24000,
              rule="at least one pair of adjacent edges (same parent, child; right == left) and no edge metadata",
-             floors={"adjacent_pieces": 0.2, "edge_metadata": 0.03, "permuted": 0.3}),
+             floors={"adjacent_pieces": 0.3, "edge_metadata": 0.05, "permuted": 0.18, "gap_between_pieces": 0.05}),
 ]
